@@ -356,6 +356,22 @@ def case(rec, pvl, pairing, key, classes):
     except Exception:
         rec.count("plain_load_failed_not_judged")
         return
+    if picky_hit:
+        # ... provided the text really has that quantity when it comes in by
+        # this route (a word ending in a dash in front of a line break is a
+        # continuation for the loaders whatever grammar they are given, and the
+        # rest of the text then reads differently): the plain load shows it
+        def has_picky(x):
+            if isinstance(x, dict):
+                return any(has_picky(v) for _, v in list(x))
+            if isinstance(x, (list, set, frozenset)):
+                return any(has_picky(v) for v in x)
+            if type(x).__name__ == "Quantity":
+                return str(x.units).strip() in PICKY_UNITS or has_picky(x.value)
+            return False
+        if not has_picky(plain):
+            rec.count("picky_units_not_read_as_a_quantity_by_this_route_not_judged")
+            return
     try:
         if pre is not None:
             if pre[0] == "exc":
@@ -571,11 +587,39 @@ def one_class_for_several_roles(rec, pvl):
                                       {"one_class_for": list(roles)}, wit, "; ".join(bad)[:300])
 
 
+def refusal_after_missing_value(rec, pvl):
+    """A quantity class that refuses the units of the statement behind a
+    parameter without a value (the permissive parsers repair that): the load
+    may fail, it may not come back without the statement."""
+    D = pvl.decoder
+    for pairing in ("default", "ISIS"):
+        for u in PICKY_UNITS:
+            for text in (f"a =\nb = 5 <{u}>\nc = 3\nEND\n",
+                         f"x = 1\na =\nb = (1, 2 <{u}>)\nc = 3\n",
+                         f"a = \nb = 5 <{u}>",
+                         f"GROUP = g\n a =\n b = 5 <{u}>\nEND_GROUP\nc = 3\nEND\n",
+                         f"a =\nb = 1.5 <{u}>\nc =\nd = 2 <{u}>\nEND\n"):
+                rec.count("refusing_quantity_class_after_a_missing_value")
+                rec.case((pairing, "refusal-after-missing", u, text), True)
+                g = pvl.grammar.ISISGrammar() if pairing == "ISIS" else pvl.grammar.OmniGrammar()
+                try:
+                    m = pvl.loads(text, grammar=g,
+                                  decoder=D.OmniDecoder(grammar=g, quantity_cls=RecQPicky))
+                except Exception:
+                    rec.count("refusal_by_the_quantity_class_propagated")
+                    continue
+                rec.violation(CHECK, pairing, "quantity-class-refused-yet-load-returned",
+                              {"route": "loads(str)", "after_a_missing_value": True},
+                              {"pairing": pairing, "text": text},
+                              f"the load returned {[k for k, _ in list(m)]}")
+
+
 def shard(i, n, tier, seed, rec, hb):
     pvl = common.import_pvl()
     classes = make_classes(pvl)
     if i == 1 % n:
         one_class_for_several_roles(rec, pvl)
+        refusal_after_missing_value(rec, pvl)
     for pairing in PAIRINGS:
         if pairing == "PDS3":
             continue        # PDSLabelDecoder takes no real_cls
@@ -598,7 +642,8 @@ def finish_kwargs(rec, tier):
             "seen[real][quantity-magnitude]", "seen[quantity][sequence]",
             "seen[quantity][block]", "seen[container:group][depth1]",
             "seen[container:object][depth2]", "seen[int][sequence]",
-            "one_class_for_several_roles"]
+            "one_class_for_several_roles",
+            "refusing_quantity_class_after_a_missing_value"]
     return dict(required_counters=req,
                 assumptions=["PDSLabelDecoder has no real_cls parameter: that "
                              "configuration is not constructible and is not "
